@@ -378,31 +378,28 @@ theorem recoverWal_cap (m0 : Mem) (ft : Nat) (w : Within m0.frames m0.payloadEnd
     · rename_i ma δ h1
       obtain ⟨p, w1, ws, tc, _, _⟩ := applyRecords_cap m0 m0.pending true ma δ h1 w
       simp only [hf, Bool.false_eq_true, if_false] at p
-      have hk : Keeps ((if δ.nonEmpty = true then ma.rebuildIndexes δ.embs δ.inserted ft else ma.flushTantivy ft).checkpoint) ma := by
-        apply Keeps.trans (checkpoint_keeps _)
-        split
-        · exact rebuildIndexes_keeps ..
-        · exact flushTantivy_keeps ..
-      exact ⟨by rw [hk.pe]; exact p, by rw [hk.frames, hk.pe]; exact w1, hk.ws.trans ws, hk.tc.trans tc, rfl⟩
+      have hk := Keeps.trans (checkpoint_keeps _) (Keeps.trans (persistSketch_keeps _) (rebuildOrFlush_keeps ma δ ft))
+      exact ⟨Nat.le_trans (Nat.le_of_eq hk.pe) p, hk.within w1, hk.ws.trans ws, hk.tc.trans tc, rfl⟩
 
 /-- `open_locked` when no payload is pending -/
 theorem openFrom_capnum (m : Mem) (ft : Nat) (h : CapNum m) (hf : hasFresh m.pending = false) :
     CapNum (m.openFrom ft) ∧ hasFresh (m.openFrom ft).pending = false := by
   have hpe : m.openLoad.payloadEnd ≤ m.payloadEnd := payloadRegionEnd_le m.frames m.payloadEnd h.within
   have hw0 : Within m.openLoad.frames m.openLoad.payloadEnd := within_payloadRegionEnd m.frames
-  obtain ⟨p, w, ws, tc, nf⟩ := recoverWal_cap m.openLoad ft hw0 hf
-  have hl : Light (m.openFrom ft) (m.openLoad.recoverWal ft) := ⟨⟨rfl, rfl, rfl, rfl⟩, rfl, rfl, rfl, rfl, id⟩
-  have hnf : hasFresh (m.openFrom ft).pending = false := by rw [hl.pending]; exact nf
-  have hws : (m.openFrom ft).walSize = m.walSize := hl.keeps.ws.trans ws
-  have htc : (m.openFrom ft).ticketCap = m.ticketCap := hl.keeps.tc.trans tc
+  have hl : Light m.openLoad.loadTracks m.openLoad := ⟨⟨rfl, rfl, rfl, rfl⟩, rfl, rfl, rfl, rfl, id⟩
+  obtain ⟨p, w, ws, tc, nf⟩ := recoverWal_cap m.openLoad.loadTracks ft (hl.keeps.within hw0) hf
+  have hnf : hasFresh (m.openFrom ft).pending = false := nf
+  have hws : (m.openFrom ft).walSize = m.walSize := ws
+  have htc : (m.openFrom ft).ticketCap = m.ticketCap := tc
+  have hp' : (m.openFrom ft).payloadEnd ≤ m.payloadEnd := Nat.le_trans p hpe
   refine ⟨?_, hnf⟩
   constructor
   · have hb := h.bound
     unfold Mem.absEnd Mem.base at hb ⊢
-    rw [capacityLimit_congr htc hws, hws, hl.keeps.pe]
+    rw [capacityLimit_congr htc hws, hws]
     omega
   · intro hx; rw [hnf] at hx; cases hx
-  · rw [hl.keeps.frames, hl.keeps.pe]; exact w
+  · exact w
   · intro hx; rw [hnf] at hx; cases hx
 
 theorem dropHandle_capnum (m : Mem) (ft : Nat) (hi : Inv m) (h : CapNum m) :
@@ -480,7 +477,7 @@ theorem stepR_inv (m : Mem) (op : Op) (hi : Inv m) : Inv (stepR m op).1 := by
         by_cases hov : m.loadVec.overCapacity (inheritArgs old u (m.carriedEmb id u.emb)) (updReuse u id) = true
         · simp only [hov, if_true]
           exact ((prePut_light _ _).trans (loadVec_light m)).inv hi
-        · simp only [hov, if_false]
+        · simp only [hov]
           exact hcore
     · simp only [hack, Bool.not_false, if_true]
       exact hcore
@@ -593,7 +590,7 @@ theorem putCore_capacity (m : Mem) (a : PutArgs) (sup reuse : Option Nat) (t : T
     simp only [Mem.putCore, hd] at h ⊢
     by_cases hm : (!m.mutationAllowed) = true
     · simp only [hm, if_true] at h; exact absurd h (by decide)
-    · simp only [hm, if_false] at h ⊢
+    · simp only [hm, Bool.false_eq_true, if_false] at h ⊢
       exact putTail_capacity m a sup reuse t h
   | cons d rest =>
     have hp : m.prePut a = m.enableVec.noteDim d := by simp only [Mem.prePut, hd]
@@ -601,13 +598,13 @@ theorem putCore_capacity (m : Mem) (a : PutArgs) (sup reuse : Option Nat) (t : T
     simp only [Mem.putCore, hd] at h ⊢
     by_cases hm : (!m.mutationAllowed) = true
     · simp only [hm, if_true] at h; exact absurd h (by decide)
-    · simp only [hm, if_false] at h ⊢
+    · simp only [hm, Bool.false_eq_true, if_false] at h ⊢
       by_cases hr : (rest.any fun x => x != d) = true
       · simp only [hr, if_true] at h; exact absurd h (by decide)
-      · simp only [hr, if_false] at h ⊢
+      · simp only [hr, Bool.false_eq_true, if_false] at h ⊢
         by_cases hx : m.enableVec.vecDim ≠ 0 ∧ m.enableVec.vecDim ≠ d
-        · simp only [hx, and_self, if_true] at h; exact absurd h (by decide)
-        · simp only [hx, if_false] at h ⊢
+        · rw [if_pos hx] at h; simp at h
+        · rw [if_neg hx] at h ⊢
           exact putTail_capacity _ a sup reuse t h
 
 /-- a put answered CapacityExceeded leaves the handle as `put_internal` found it after the dimension
@@ -662,7 +659,8 @@ example : (traceR Mem.create witnessPending).map (·.2) = [.ok, .seq 1, .err "ca
     (runR Mem.create witnessPending).payloadEnd = 2000 ∧
     (runR Mem.create witnessPending).absEnd ≤ (runR Mem.create witnessPending).capacityLimit := by decide
 
-example : ScopedRun Mem.create witnessPending := by decide
+example : ScopedRun Mem.create witnessPending :=
+  ⟨⟨by decide, by decide⟩, rfl, rfl, trivial, trivial⟩
 
 /-- the property at full strength, for the repaired handle: whatever the history, an operation never
     moves the end of the payload region beyond the limit (it may leave it where it was), and a put or
